@@ -88,6 +88,7 @@ pub fn gen_cfg(t: &mut Tape, profile: Profile) -> RunCfg {
         p_peer_stall: 0,
         p_ping_flush_cancel: 0,
         twin_same_timing: false,
+        twin_poll_budget_us: 0,
         zero_time_io: false,
         p_withhold_ack: [0, 50, 200, 500][t.choose(4) as usize],
         p_fail_reason: [0, 0, 50, 200][t.choose(4) as usize],
